@@ -36,6 +36,9 @@ def gen_cases(tier, seed):
     for N in range(0, b["Nmax"] + 1):
         for dt in DTYPES:
             yield {"N": N, "dtype": dt, "full": b["full"]}
+    for N in (8, 9):
+        for dt in ("float32", "float64", "int16"):
+            yield {"kind": "sched", "N": N, "dtype": dt, "bound": 1 if tier == "quick" else 2}
 
 
 _R = {}
@@ -163,6 +166,23 @@ def check_case(case):
                 res.hits["negative axis"] += 1
             if rank == 3 and ax == 1:
                 res.hits["middle axis of rank 3"] += 1
+    # another axis of length zero: the converted axis must still be decimated (shape-only)
+    if N >= 1:
+        for shape, axis in (((N, 0), 0), ((0, N), 1), ((3, 0, N), 2), ((N, 2, 0), 0), ((0, N, 2), -2)):
+            xin = np.zeros(shape, dtype=dt)
+            try:
+                out = f(xin, axis=axis)
+            except Exception as ex:
+                res.violation("real_to_complex|empty other axis raised", f"shape {shape} axis {axis}: {type(ex).__name__}: {ex}", case,
+                              {"shape": list(shape), "axis": axis})
+                continue
+            res.transitions += 1
+            want_shape = list(shape)
+            want_shape[axis % len(shape)] = M
+            if list(out.shape) != want_shape or out.dtype != want_dtype:
+                res.violation("real_to_complex|empty other axis shape", f"shape {shape} axis {axis}: result {out.shape} {out.dtype}, expected "
+                              f"{want_shape} {np.dtype(want_dtype)}", case, {"shape": list(shape), "axis": axis})
+            res.hits["zero-length other axis"] += 1
     res.states |= {hash((N, str(dt), i)) for i in range(nv)}
     # complex input refused
     for cdt in (np.complex64, np.complex128):
@@ -201,10 +221,57 @@ def check_case(case):
     return res
 
 
+def sched_case(case, res):
+    """Two calls with the SAME shape and dtype on two threads: every interleaving (Python-line granularity in utils.py)."""
+    from pbmc import sched_threads, REPO
+    N, dt = case["N"], np.dtype(case["dtype"])
+    rng = np.random.default_rng(3)
+    a = rng.integers(-3, 4, size=(N, 3)).astype(dt)
+    b = (rng.integers(-3, 4, size=(N, 3)) * 2 + 1).astype(dt)
+    ref = (f_rtc(a), f_rtc(b))
+
+    def make(s):
+        return [lambda: f_rtc(a), lambda: f_rtc(b)]
+
+    def check(results, s):
+        ok = True
+        for i in range(2):
+            st, val = results.get("T%d" % i, ("exc", None))
+            if st != "ok" or not np.array_equal(val, ref[i]):
+                ok = False
+                res.violation("real_to_complex|concurrent calls interfere", f"thread {i} returned "
+                              f"{'an exception ' + repr(val) if st != 'ok' else 'a different array'} with preemptions at "
+                              f"{[t[3] for t in s.trace if t[1] != 0]}", case, {"choices": [t[1] for t in s.trace]})
+        return ok
+
+    st = sched_threads.explore(make, (REPO + "/pulsarbat/utils.py",), case["bound"], check)
+    res.traces += st["executions"]
+    res.transitions += st["transitions"]
+    for i in range(st["executions"]):
+        res.state(("sched", N, str(dt), i))
+    res.hits["concurrent same-shape calls explored"] += st["executions"]
+    res.sample({"sched": {"N": N, "dtype": str(dt), "executions": st["executions"], "points": st["points"]}}, 1)
+
+
+def f_rtc(x):
+    return pb.utils.real_to_complex(x, axis=0)
+
+
+_check_case_grid = check_case
+
+
+def check_case(case):          # noqa: F811 - dispatch on the case kind
+    if case.get("kind") == "sched":
+        res = report.Result()
+        sched_case(case, res)
+        return res
+    return _check_case_grid(case)
+
+
 def main(argv=None):
     return report.run_check(
         PID, gen_cases=gen_cases, check_case=check_case, describe=describe,
-        required_hits=["N = 0", "N = 1", "non-contiguous input", "negative axis", "middle axis of rank 3", "complex refused", "tone mapped"],
+        required_hits=["N = 0", "N = 1", "non-contiguous input", "zero-length other axis", "concurrent same-shape calls explored", "negative axis", "middle axis of rank 3", "complex refused", "tone mapped"],
         assumptions=["budget 8 eps max(N,4) max|x| with eps = single precision for float16/float32 input (scipy.fft computes half-precision input in single precision) and double otherwise"],
         argv=argv)
 
